@@ -136,7 +136,8 @@ fn case(srv: &mut Srv, seed: u64, res: &mut CaseResult) -> R<()> {
         return Ok(());
     }
     let ctxs = [ZERO_CONTEXT, ctx_a];
-    let names = ["c1", "c2"];
+    // (one name is another name followed by ".call": a call to the longer one is `job.call.call`)
+    let names = ["c1", "job", "job.call"];
     let mut current: BTreeMap<String, (Scru128Id, CmdDef)> = BTreeMap::new();
     let mut calls: Vec<Call> = vec![];
     let mut bad_defs: Vec<Frame> = vec![];
@@ -174,7 +175,7 @@ fn case(srv: &mut Srv, seed: u64, res: &mut CaseResult) -> R<()> {
                 }
             }
         }
-        let name = names[rng.below(2)];
+        let name = names[rng.below(3)];
         let ctx = ctxs[rng.below(2)];
         let kind = if !current.contains_key(name) { *rng.pick(&["define", "define", "call", "define-bad"]) } else { *rng.pick(&["call", "call", "call-burst", "define", "define-bad", "call", "redefine-identical"]) };
         events.push(format!("{}:{}", kind, name));
